@@ -3,6 +3,7 @@ package engine
 import (
 	"context"
 	"fmt"
+	"strings"
 	"sync"
 	"time"
 
@@ -387,7 +388,13 @@ func (e *Exec) goal(s *TxState) (bool, string) {
 		if c.Status.State != configapi.ConfigurationStatus_SYNCHRONIZED || c.Status.Applied.Mastership.Term != c.Status.Mastership.Term || c.Status.Mastership.Master != cur {
 			return false, fmt.Sprintf("configuration %s is %s term %d/%d master %q (live connection %q)", c.ID, c.Status.State, c.Status.Mastership.Term, c.Status.Applied.Mastership.Term, c.Status.Mastership.Master, cur)
 		}
-		if rel := e.W.Topo.Relations(string(c.TargetID)); len(rel) != 1 || rel[0] != cur {
+		var rel []string
+		for _, x := range e.W.Topo.Relations(string(c.TargetID)) {
+			if !strings.HasPrefix(x, "conn-foreign-") { // another node's relation is not this node's to clean up
+				rel = append(rel, x)
+			}
+		}
+		if len(rel) != 1 || rel[0] != cur {
 			return false, fmt.Sprintf("relations of %s are %v (live connection %q)", c.TargetID, rel, cur)
 		}
 	}
